@@ -63,7 +63,15 @@ class BasicBlock:
         body = self._exprs
 
         if self._config.common_subexpression_elimination:
-            prefix, body = cse(body, symbols=(Symbol(f"_t{i}") for i in count()))
+            # A temporary must not shadow one of the block's own arguments
+            # (a model symbol may itself be called _t0)
+            taken = [str(arg) for arg in self._arglist]
+            prefix, body = cse(
+                body,
+                symbols=(
+                    Symbol(f"_t{i}") for i in count() if f"_t{i}" not in taken
+                ),
+            )
 
         temporaries = [r[0] for r in prefix]
         self._prefix = []
